@@ -73,6 +73,7 @@ using smt::rational;
 
 static std::string rs(const rational &r) { return std::to_string(r.numerator()) + "/" + std::to_string(r.denominator()); }
 static std::string irs(const inf_rational &r) { return rs(r.get_rational()) + "," + rs(r.get_infinitesimal()); }
+static std::string irs(const rational &r) { return irs(inf_rational(r)); } // timeline keys, whatever numeric type the executor keeps them in
 
 struct H
 {
